@@ -40,6 +40,27 @@ fn tables(cyc: &Cycle, thorough: bool) -> Vec<Vec<(i64, i32)>> {
         }
     }
     out.push(real_table(cyc));
+    // long tables (block-wise scans, binary search depth): sign patterns all -, all +, alternating, 15 x - then +, 16 x + then -
+    for len in [15usize, 16, 17, 31, 32, 33, 64, 100] {
+        for pat in 0..5 {
+            let mut v = vec![];
+            let mut c = 0i32;
+            let mut t = 1000i64;
+            for k in 0..len {
+                let up = match pat {
+                    0 => false,
+                    1 => true,
+                    2 => k % 2 == 0,
+                    3 => k >= 15,
+                    _ => k < 16,
+                };
+                c += if up { 1 } else { -1 };
+                v.push((t, c));
+                t += D28 - 1 + (k as i64 % 3);
+            }
+            out.push(v);
+        }
+    }
     out
 }
 
@@ -135,7 +156,8 @@ pub fn run(args: &Args) -> i32 {
                 let mut fw = (0u64, 0u64);
                 // transition counts: at, just before and after each record; far from records
                 let mut ts: Vec<i64> = vec![];
-                let recs: Vec<usize> = if leaps.len() > 6 { vec![0, 1, 13, 25, 26] } else { (0..leaps.len()).collect() };
+                let n = leaps.len();
+                let recs: Vec<usize> = if n > 6 { let mut r = vec![0, 1, n / 2, n - 2, n - 1]; for k in [13usize, 14, 15, 16, 17, 30, 31, 32, 33, 47, 48, 63] { if k < n { r.push(k); } } r.sort(); r.dedup(); r } else { (0..n).collect() };
                 for &i in &recs {
                     for d in -3..=3 {
                         ts.push(leaps[i].0 + d);
